@@ -116,7 +116,7 @@ impl PreBoneDeformer {
             .items
             .iter()
             .find(|x| x.body_id == from_body_id)?;
-        let mut next = &self.header.links[item.link_index as usize];
+        let mut next = self.header.links.get(item.link_index as usize)?;
 
         if next.next_sibling_index == -1 {
             return None;
@@ -124,11 +124,18 @@ impl PreBoneDeformer {
 
         let mut bones = vec![];
 
+        // a link tree is left after at most one step per link; anything longer is a cycle
+        let mut steps = 0;
         loop {
+            steps += 1;
+            if steps > self.header.links.len() + 1 {
+                return None;
+            }
+
             for i in 0..item.deformer.bone_count {
                 bones.push(PreBoneDeformBone {
-                    name: item.deformer.bone_names[i as usize].clone(),
-                    deform: item.deformer.transform[i as usize],
+                    name: item.deformer.bone_names.get(i as usize)?.clone(),
+                    deform: *item.deformer.transform.get(i as usize)?,
                 })
             }
 
@@ -136,8 +143,8 @@ impl PreBoneDeformer {
                 break;
             }
 
-            next = &self.header.links[next.parent_index as usize];
-            item = &self.header.items[next.deformer_index as usize];
+            next = self.header.links.get(next.parent_index as usize)?;
+            item = self.header.items.get(next.deformer_index as usize)?;
 
             if item.body_id == to_body_id {
                 break;
